@@ -33,6 +33,7 @@ type Prop struct {
 	N          uint64 // universe size: thorough runs [0,N)
 	Quick      int    // number of seed-chosen indices in the quick tier
 	QuickFixed uint64 // indices below it are part of every quick run (fixed grid); the seed-chosen subset comes on top
+	Witness bool // the runner is built on gen.D: the fixed witness corpus (gen.Witnesses) is part of every tier
 	Build      string // worker build variant: "", "race", "cover"
 	Env        []string
 	Workers    int
@@ -314,7 +315,7 @@ func check(propID, tier string, mode int, from, to uint64) int {
 			kf := list[k].kf
 			if perKF[kf] < 3 {
 				i, _ := strconv.ParseUint(strings.SplitN(k, "\t", 2)[0], 10, 64)
-				if !seen[i] && i < p.N {
+				if !seen[i] && (i < p.N || (p.Witness && i >= gen.WitnessBase)) {
 					seen[i] = true
 					idx = append(idx, i)
 					perKF[kf]++
@@ -336,6 +337,18 @@ func check(propID, tier string, mode int, from, to uint64) int {
 			i := r.Uint64N(p.N)
 			if !seen[i] {
 				seen[i] = true
+				idx = append(idx, i)
+			}
+		}
+	}
+
+	if p.Witness && mode != modeExplore {
+		have := map[uint64]bool{}
+		for _, i := range idx {
+			have[i] = true
+		}
+		for k := range gen.Witnesses {
+			if i := gen.WitnessBase + uint64(k); !have[i] {
 				idx = append(idx, i)
 			}
 		}
